@@ -84,6 +84,9 @@ func Start(cfg Config) (*GW, error) {
 			cmd.Env = append(cmd.Env, e)
 		}
 	}
+	for k, v := range cfg.Env {
+		cmd.Env = append(cmd.Env, k+"="+v)
+	}
 	stdin, _ := cmd.StdinPipe()
 	stdout, _ := cmd.StdoutPipe()
 	eb := &lockedBuf{}
